@@ -16,7 +16,7 @@ theorem mem_wiresOf (obs : List Obs) (m : OutMsg) : m ∈ wiresOf obs ↔ Obs.wi
     subst h; exact ho
   · intro h; exact ⟨_, h, rfl⟩
 
-theorem evOK_of_linkEv {c : Ctx} {e : Ev} (he : LinkEv c e) : EvOK TN TS (PoolP c) e := by
+theorem evOK_of_linkEv {c : Ctx} {e : Ev} (cfg : Cfg) (he : LinkEv c e) : EvOK TN TS (PoolP c) cfg e := by
   cases e with
   | incomingMsg m =>
     cases m with
@@ -31,6 +31,7 @@ theorem evOK_of_linkEv {c : Ctx} {e : Ev} (he : LinkEv c e) : EvOK TN TS (PoolP 
   | send m => exact he.elim
   | flush => trivial
   | sessionTime r sm => exact he.elim
+  | resetTime now => exact he.elim
 
 /-- what one event does to one engine, given the invariant before it -/
 structure StepRes (c : Ctx) (s s' : Sess) (obs : List Obs) : Prop where
@@ -53,7 +54,7 @@ theorem side_step {c : Ctx} (hc : CtxOK c) (s : Sess) (e : Ev) (he : LinkEv c e)
       by intro m hm; cases hm⟩, ht1, ht2, by simp [dl, deliveredSeqs, Sess.clearLog, hd]⟩
   have k := K_stepCore hc s.clearLog e he hk (poolInv_clearLog s hp)
   have g := good_stepCore (N := TN) (S := TS) (P := PoolP c) s.clearLog e (poolHyp_triv _ _) (cfgHyp_triv _) (poolInv_clearLog s hp)
-    (evOK_of_linkEv he)
+    (evOK_of_linkEv _ he)
   unfold step
   simp only []
   generalize stepCore s.clearLog e = r at k g
@@ -98,8 +99,8 @@ theorem wire_payload_unique {P : Store} (hP : StoreOK P) {m m' : OutMsg} (hw : W
     (p p' : String) (hp : m.f.get? 9000 = some p) (hp' : m'.f.get? 9000 = some p') : p = p' := by
   have hk : ∀ x : OutMsg, ∀ q, x.f.get? 9000 = some q → x.kind = "4" → Wire P x → False := by
     intro x q hq hk4 hx
-    obtain ⟨b, e, rfl, _⟩ := wire_gap_inv hP hx hk4
-    simp [gapFill, get?_cons, get?_nil] at hq
+    obtain ⟨b, e, l, rfl, _⟩ := wire_gap_inv hP hx hk4
+    simp [gapFillL, gapFill, get?_cons, get?_nil] at hq
   obtain ⟨m0, h0, _, e0⟩ := wire_at hw (fun h => hk m p hp h hw)
   obtain ⟨m0', h0', _, e0'⟩ := wire_at hw' (fun h => hk m' p' hp' h hw')
   rw [hs] at h0'
